@@ -320,6 +320,20 @@ def run(repo: Repo, rep: Report, tier: str) -> None:
             kind, ev = _key_origin(f, key, st)
             rep.check(kind != "other", "C09-R4", f"{f.short} deletes only compiler-owned placements ({ckey(f, st)})", f"{kind}: {ev}", f.loc(st))
     rep.floor("C09-R4", "deletion sites of placements", n_del, 3)
+    # the flag that makes a placement deletable (and a relay candidate) is the power planner's: nobody else sets it, least of all the code that places the
+    # program's own entities — a user-placed pole that covers nothing would be trimmed away
+    flag_writers = []
+    for f in repo.all_funcs():
+        for n in walk_local(f.node):
+            if isinstance(n, ast.keyword) and n.arg == "is_power_pole":
+                flag_writers.append((f, n.value))
+            elif isinstance(n, ast.Assign) and isinstance(n.targets[0], ast.Subscript) and isinstance(n.targets[0].slice, ast.Constant) and n.targets[0].slice.value == "is_power_pole":
+                flag_writers.append((f, n))
+    rep.floor("C09-R4", "writers of the is_power_pole flag", len(flag_writers), 1)
+    for f, n in flag_writers:
+        own = f.module.name.endswith("power_planner")
+        rep.check(own, "C09-R4", f"{f.short} may mark a placement as a grid pole", "the power planner" if own else
+                  "the flag authorises deletion in _trim_power_poles and reuse as a relay: set outside the power planner it exposes the program's own entities to both", f.loc(n))
     # fixture: the matcher must still recognise a forbidden deletion
     fx = VERIF / "fixtures" / "c09_forbidden_delete.py"
     tree = ast.parse(fx.read_text())
